@@ -589,11 +589,10 @@ func cmdCheck(args []string) int {
 	head := repoHead()
 	for _, s := range sigs {
 		v := bySig[s]
-		if f := findings.Match(p.ID, s); f != nil {
-			fmt.Printf("KNOWN-FINDING: property=%s %s [%s]\n", p.ID, f.WhatFails, f.ID)
-			knownSeen = append(knownSeen, f.ID)
-			continue
-		}
+		// Violations found by the search are never suppressed: every open
+		// finding is kept out of the search by its avoidance predicate (and
+		// shown by its direct probe above), so whatever the search finds is
+		// by construction something the findings file does not list.
 		rf := &ReplayFile{Property: p.ID, Engine: p.Engine, Scenario: v.Scenario, Seed: seed, RunIndex: v.RunIndex,
 			Choices: v.Choices, Violation: v.Violation, Events: v.Events, RepoHead: head}
 		for k := range avoid {
